@@ -126,7 +126,7 @@ int main(int argc, char **argv)
           // kind of run boundary: 0 = new run in the same process; 1 = state saved, new process loads it and repeats the
           // stop step; 2 = as 1, and the new process evaluates the stop step twice ("run 0" followed by "run N")
           int kind = (int) (sgk / nseg);
-          if (kind > 0 && (sg == 0 || (w % 4) != 1)) continue;
+          if (kind > 0 && (sg == 0 || ((w / 16) % 4) != 1)) continue;  // (w/16: independent of the shard, which is w mod 16)
           // thorough: all segmentations for every second word, the unsegmented run for all; quick: everything
           if (thorough && sg != 0 && (w % 2) != 1) continue;
           r.count("evaluations");
@@ -240,6 +240,66 @@ int main(int argc, char **argv)
           delete px;
         }
       }
+    }
+    // ---- variable-level multiple time stepping: integrated every timeStepFactor steps with the long time step ----
+    if (shard == 1 % nsh) {
+      for (int tsf : {2, 3})
+        for (double g : {0.0, 10.0})
+          for (int wv = 0; wv < 27; wv++) {
+            // three awake steps; the move before each and the bias force at each are enumerated (3 x 3 each)... word of 3 letters
+            int letters[3] = {wv % 3, (wv / 3) % 3, wv / 9};
+            Par p{0.2, 20.0, 1.0, g, 0, false};
+            Par peff = p; peff.dt = p.dt * tsf;  // the reference integrates with the long time step
+            std::string conf = conf_text(p);
+            size_t at = conf.find(" extendedLagrangian on");
+            conf.insert(at, " timeStepFactor " + std::to_string(tsf) + "\n");
+            std::string det = "{\"timeStepFactor\":" + std::to_string(tsf) + ",\"damping\":" + num(g) + ",\"word\":" + std::to_string(wv);
+            r.count("evaluations");
+            vproxy *px = new vproxy(2);
+            px->set_target_temperature(300.0);
+            px->set_integration_timestep(p.dt);
+            for (int k = 0; k < 2; k++) for (int i = 0; i < 12; i++) px->rng.push_back(NOISE[i]);
+            double xi = 2.0, fnow = 0;
+            bool awake = true;
+            px->x[1] = cvm::rvector(xi, 0, 0);
+            // a bias acting on a multiple-time-step variable runs with (a multiple of) the same factor and hands over its force
+            // scaled by it, as an impulse (colvarbias::communicate_forces); the integrator divides by the factor again
+            px->force_callback = [px, &fnow, &awake, tsf]() {
+              colvar *cvp = px->cv("d");
+              if (cvp && awake) cvp->add_bias_force(colvarvalue(fnow * tsf));
+              return COLVARS_OK;
+            };
+            if (px->config(conf) != 0) { r.violation("C17:mts:configuration-rejected", det + ",\"error\":\"" + jesc(px->errtxt.substr(0, 200)) + "\"}"); delete px; continue; }
+            colvar *cv = px->cv("d");
+            Ref ref(peff, xi + MOVE[letters[0] % 4]);
+            bool failed = false;
+            for (int s = 0; s < 3 * tsf && !failed; s++) {
+              awake = (s % tsf) == 0;
+              int li = s / tsf;
+              if (awake) { xi += MOVE[letters[li] % 4]; if (xi < 0.5) xi = 0.5; fnow = FORCE[letters[li]]; }
+              px->x[1] = cvm::rvector(xi, 0, 0);
+              if (px->step(s) != 0) { r.violation("C17:mts:error-during-integration", det + ",\"step\":" + std::to_string(s) + ",\"error\":\"" + jesc(px->errtxt.substr(0, 200)) + "\"}"); failed = true; break; }
+              r.count("transitions");
+              if (!awake) {
+                if (std::fabs(px->fapp[1].x) > 1e-14) { r.violation("C17:mts:force-applied-while-the-variable-sleeps", det + ",\"step\":" + std::to_string(s) + "}"); failed = true; }
+                continue;
+              }
+              Ref::Out o = ref.advance(xi, fnow, false);
+              auto cmp = [&](const char *what, double got, double want, double scale) {
+                if (failed) return;
+                if (!close_rel(got, want, std::max(scale, std::fabs(want)), 1e-10, 1e-12)) {
+                  r.violation(std::string("C17:mts:") + what + (g > 0 ? ":with-friction" : ""), det + ",\"step\":" + std::to_string(s) + ",\"observed\":" + num(got) + ",\"expected\":" + num(want) + "}");
+                  failed = true;
+                }
+              };
+              cmp("reported-value-differs-from-integrator", cv->x_reported.real_value, o.x_rep, 1.0);
+              cmp("new-position-differs-from-integrator-with-the-long-time-step", cv->x_ext.real_value, ref.cur.x, 1.0);
+              // the coupling force reaches the atoms as an impulse: scaled by the factor at the steps where it is applied
+              cmp("atomic-force-is-not-the-spring-impulse", px->fapp[1].x, o.spring_on_atoms * tsf, 1.0);
+            }
+            if (!failed) { r.seen("nontrivial", fnv(det)); r.seen("states", fnv(det + num(ref.cur.x))); }
+            delete px;
+          }
     }
     // ---- energy conservation without friction: second-order fluctuation, no drift ----
     if (shard == 0) {
